@@ -576,7 +576,8 @@ def evaluate_sizes(nodes, warn=null_warn):
             padding = (alignment - byte_size % alignment) % alignment
             byte_size += padding
             if any(is_member_dynamic(m) for m in node_.members):
-                prev_member.padding = (node_.members[-1].alignment < alignment) and (-alignment) or 0
+                last = node_.members[-1]
+                prev_member.padding = (last.alignment < alignment or last.byte_size % alignment) and (-alignment) or 0
             else:
                 prev_member.padding = padding
         node_.byte_size, node_.alignment = byte_size, alignment
